@@ -549,12 +549,27 @@ _reg('progress', '*', _same, lambda n, e: call(rs.ops.progress, [('name', PROGRE
 # mux only
 _reg('distinct', 'iotfp', _same, lambda n, e: rs.ops.distinct(fn(n[1], e) if n[1] else None), ['stateful', 'mux_only'])
 _reg('lag', '*', 'x', lambda n, e: call(rs.data.lag, [('size', n[1])]), ['stateful', 'mux_only'])
-_reg('pad_start', '*', _same, lambda n, e: call(rs.data.pad_start, [('size', n[1]), ('value', n[2])]), ['stateful', 'mux_only'])
-_reg('pad_end', '*', _same, lambda n, e: call(rs.data.pad_end, [('size', n[1]), ('value', n[2])]), ['stateful', 'mux_only', 'completion'])
+_reg('pad_start', '*', _same, lambda n, e: call(rs.data.pad_start, [('size', n[1]), ('value', pad_value(n[2]))]), ['stateful', 'mux_only'])
+_reg('pad_end', '*', _same, lambda n, e: call(rs.data.pad_end, [('size', n[1]), ('value', pad_value(n[2]))]), ['stateful', 'mux_only', 'completion'])
+def _a_plain_function(*a):
+    return None
+
+
+_CALLABLE_VALUES = {'str': str, 'len': len, 'function': _a_plain_function, 'partial': functools.partial(int, '7')}
+
+
+def pad_value(v):
+    """a padding VALUE of the DSL: {'callable': name} stands for a value that happens to be callable (a converter, a dtype, a
+    handler used as the default of a stream of such): it is a value like any other and is emitted as it is"""
+    if isinstance(v, dict) and 'callable' in v:
+        return _CALLABLE_VALUES[v['callable']]
+    return v
+
+
 def padding_of(n):
     """the padding of a start_with node as the container its third field names: the items to prepend are given as a list or - as in
     the operator's own documentation - a tuple, or any other re-iterable (a range, a deque, the keys of a dict, a numpy array)"""
-    vals = list(n[1])
+    vals = [pad_value(v) for v in n[1]]
     kind = n[2] if len(n) > 2 else 'list'
     if kind == 'tuple':
         return tuple(vals)
